@@ -53,6 +53,11 @@ impl ValMap {
         ensures final(self).view == old(self).view.insert(key_class(k), v),
             old(self).view.dom().contains(key_class(k)) ==> r == Some(old(self).view[key_class(k)]), !old(self).view.dom().contains(key_class(k)) ==> r is None,
     { unimplemented!() }
+    // R24: `entry(k).or_insert(v)`
+    #[verifier::external_body]
+    fn entry_or_insert(&mut self, k: Value, v: Value)
+        ensures old(self).view.dom().contains(key_class(k)) ==> final(self).view == old(self).view, !old(self).view.dom().contains(key_class(k)) ==> final(self).view == old(self).view.insert(key_class(k), v),
+    { unimplemented!() }
     #[verifier::external_body]
     fn remove(&mut self, k: &Value) -> (r: Option<Value>)
         ensures final(self).view == old(self).view.remove(key_class(*k)),
@@ -130,10 +135,10 @@ impl Vm {
 
     // `{k0: v0, …}`: BuildHashMap n
     //@fn file=yarel/src/vm.rs path=Vm::build_hash_map ret=r
-    //@  rewrite R1
+    //@  rewrite R1 R24
     //@  subst "self.active_fiber().stack[begin + 2 * i]" => "self.stack_at(begin + 2 * i)"
     //@  subst "self.active_fiber().stack[begin + 2 * i + 1]" => "self.stack_at(begin + 2 * i + 1)"
-    //@  subst "map.borrow_mut().elements.insert(key, value);" => "self.map_mut(root_as_gc(&map)).elements.insert(key, value);"
+    //@  subst "map.borrow_mut()" => "self.map_mut(root_as_gc(&map))"
     //@  requires num_elements * 2 <= old(self).stack.len(), old(self).stack.len() < 0x1000_0000
     //@  ensures @unhashable_key_is_a_value_error (exists|i: int| 0 <= i < num_elements && !(#[trigger] old(self).stack[old(self).stack.len() - 2 * num_elements + 2 * i]).hashable()) ==> (r matches Err(e) && e.kind is ValueError)
     //@  ensures @literal_is_the_abstract_map_of_its_entries (forall|i: int| 0 <= i < num_elements ==> (#[trigger] old(self).stack[old(self).stack.len() - 2 * num_elements + 2 * i]).hashable()) ==> (r matches Ok(m) && final(self).maps.dom().contains(m.id()) && !old(self).maps.dom().contains(m.id()) && final(self).maps[m.id()].elements.view == Vm::literal_map(old(self).stack, old(self).stack.len() - 2 * num_elements, num_elements as int) && final(self).stack == old(self).stack.take(old(self).stack.len() - 2 * num_elements))
